@@ -5,13 +5,17 @@
 //! ops:  `file <len> <seed> <pat> <period> <badLo> <badHi>`  then
 //!       `read <offset> <size>` | `until <lo> <hi> <delim>` | `into <offset> <size>` | `t <k> <op…>`
 //!       (a maximal run of consecutive `t` lines = one section of concurrently running threads)
+//!       `sync` (after a section): prints `sync overlap=<0|1>` — whether two threads of the section were ever
+//!       inside this cache's byte source at the same time (see `Gate`)
 //! out:  per op `ok <len> <hex>` (len ≤ 40) | `ok <len> h:<fnv1a-64>` | `err:<kind>` | `panic` (ends the case)
 use samply_symbols::{
     FileAndPathHelperResult, FileByteSource, FileContentsWithChunkedCaching, FileContentsWrapper,
 };
 use std::panic::{catch_unwind, AssertUnwindSafe};
-use std::sync::atomic::{AtomicU64, Ordering};
+use std::cell::Cell;
+use std::sync::atomic::{AtomicBool, AtomicU64, Ordering};
 use std::sync::{Arc, Barrier};
+use std::time::Instant;
 use verif_harness::common::*;
 
 const CH: u64 = 32 * 1024;
@@ -86,6 +90,59 @@ impl Gen {
     }
 }
 
+/// Rendezvous inside the byte source, armed during concurrent sections. The cache holds its buffer-manager
+/// mutex from planning a read until the new buffer is registered (cache.rs:55-75), so on the unchanged code
+/// at most one thread of a section is ever inside the source: it waits out its (short) deadline alone. If
+/// the lock is not held across the source read, the threads of a section meet here, `overlapped` is set
+/// (reported by the `sync` op) and all of them are released at the same instant, which makes the
+/// registration race behind the read (handle allocation vs. push) as likely as it can be made.
+struct Gate {
+    armed: AtomicBool,
+    inside: AtomicU64,
+    /// nanoseconds since `base` at which the threads currently inside are released
+    deadline: AtomicU64,
+    overlapped: AtomicBool,
+    base: Instant,
+}
+
+const GATE_WAIT_NS: u64 = 250_000;
+
+thread_local! {
+    /// set while the current thread executes an `into` op: `read_bytes_into` goes straight to the source
+    /// without any lock, overlapping there is legitimate
+    static BYPASS_GATE: Cell<bool> = const { Cell::new(false) };
+}
+
+impl Gate {
+    fn new() -> Gate {
+        Gate { armed: AtomicBool::new(false), inside: AtomicU64::new(0), deadline: AtomicU64::new(0), overlapped: AtomicBool::new(false), base: Instant::now() }
+    }
+    fn now(&self) -> u64 {
+        self.base.elapsed().as_nanos() as u64
+    }
+    fn enter(&self) -> bool {
+        if !self.armed.load(Ordering::SeqCst) || BYPASS_GATE.with(|b| b.get()) {
+            return false;
+        }
+        if self.inside.fetch_add(1, Ordering::SeqCst) == 0 {
+            self.deadline.store(self.now() + GATE_WAIT_NS, Ordering::SeqCst);
+        } else {
+            self.overlapped.store(true, Ordering::SeqCst);
+        }
+        // busy-wait (the waits are short and the release must be simultaneous)
+        while self.now() < self.deadline.load(Ordering::SeqCst) {
+            std::hint::spin_loop();
+        }
+        if self.inside.load(Ordering::SeqCst) > 1 {
+            self.overlapped.store(true, Ordering::SeqCst);
+        }
+        true
+    }
+    fn leave(&self) {
+        self.inside.fetch_sub(1, Ordering::SeqCst);
+    }
+}
+
 /// The byte source: in-memory bytes (or generated on the fly for a virtual file); fails out of bounds and
 /// on every request touching `[bad_lo, bad_hi)`; counts its calls.
 struct MemSource {
@@ -93,10 +150,22 @@ struct MemSource {
     data: Option<Arc<Vec<u8>>>,
     calls: Arc<AtomicU64>,
     unaligned_calls: Arc<AtomicU64>,
+    gate: Arc<Gate>,
 }
 
 impl FileByteSource for MemSource {
     fn read_bytes_into(&self, buffer: &mut Vec<u8>, offset: u64, size: usize) -> FileAndPathHelperResult<()> {
+        let gated = self.gate.enter();
+        let r = self.read_inner(buffer, offset, size);
+        if gated {
+            self.gate.leave();
+        }
+        r
+    }
+}
+
+impl MemSource {
+    fn read_inner(&self, buffer: &mut Vec<u8>, offset: u64, size: usize) -> FileAndPathHelperResult<()> {
         self.calls.fetch_add(1, Ordering::SeqCst);
         if offset % CH != 0 {
             self.unaligned_calls.fetch_add(1, Ordering::SeqCst);
@@ -198,7 +267,10 @@ fn run_op(cache: &Cache, op: Op) -> Option<String> {
         },
         Op::Into(o, n) => {
             let mut v = Vec::new();
-            match cache.read_bytes_into(&mut v, o, n as usize) {
+            BYPASS_GATE.with(|b| b.set(true));
+            let r = cache.read_bytes_into(&mut v, o, n as usize);
+            BYPASS_GATE.with(|b| b.set(false));
+            match r {
                 Ok(()) => show_bytes(&v),
                 Err(e) => show_err(&*e),
             }
@@ -566,6 +638,44 @@ fn thread_section(rng: &mut Rng, g: &Gen, data: &[u8], prev: &mut Vec<Op>, ops: 
         prev.push(op);
         ops.push(format!("t {k} {}", op.line()));
     }
+    ops.push("sync".to_string());
+}
+
+/// "first touch" race: a fresh cache, `threads` threads released together, each reading inside a chunk of
+/// its own that nobody has read yet (so every thread has to plan a read, fetch and register a new buffer),
+/// then the same ranges and their neighbours again sequentially (now served through the registered buffers:
+/// a buffer registered under another chunk's range shows up as wrong bytes here at the latest)
+fn first_touch_case(rng: &mut Rng, threads: u64, rounds: u64) -> Vec<String> {
+    let chunks = threads * rounds;
+    let len = chunks * CH + rng.below(3 * CH);
+    let g = Gen { len, seed: rng.next_u64() % 1000, pat: *rng.pick(&[0u64, 1, 3]), period: rng.range(50, 3000), bad_lo: 0, bad_hi: 0 };
+    let mut ops = vec![g.line()];
+    let mut reads: Vec<Op> = Vec::new();
+    let mut order: Vec<u64> = (0..threads * rounds).collect();
+    // a random assignment of chunks to (thread, round)
+    for i in (1..order.len()).rev() {
+        let j = rng.below(i as u64 + 1) as usize;
+        order.swap(i, j);
+    }
+    for r in 0..rounds {
+        for k in 0..threads {
+            let c = order[(r * threads + k) as usize];
+            let off = c * CH + rng.below(CH - 64);
+            let n = rng.range(1, 64).min(len - off);
+            let op = if rng.chance(1, 5) { Op::Until(off, (off + 4096).min(len), 0) } else { Op::Read(off, n) };
+            reads.push(op);
+            ops.push(format!("t {k} {}", op.line()));
+        }
+    }
+    ops.push("sync".to_string());
+    for op in &reads {
+        ops.push(op.line());
+    }
+    for c in 0..chunks {
+        let off = c * CH + rng.below(CH - 8);
+        ops.push(Op::Read(off, rng.range(1, 8).min(len - off)).line());
+    }
+    ops
 }
 
 pub struct C13;
@@ -597,6 +707,12 @@ impl Prop for C13 {
     fn generate(&self, rng: &mut Rng, tier: Tier, _index: u64) -> Vec<String> {
         if rng.chance(1, 30) {
             return gen_huge_case(rng);
+        }
+        // quick: ~1 in 12 cases is a first-touch race; thorough: 1 in 6
+        if rng.chance(1, if tier == Tier::Quick { 12 } else { 6 }) {
+            let threads = *rng.pick(&[2u64, 2, 3, 4, 8]);
+            let rounds = rng.range(1, 4);
+            return first_touch_case(rng, threads, rounds);
         }
         let g = gen_file(rng);
         let data = g.materialise().unwrap_or_default();
@@ -649,7 +765,8 @@ impl Prop for C13 {
         // the wrapper owns the cache which owns the source; its call counters are shared handles
         let calls = Arc::new(AtomicU64::new(0));
         let unaligned = Arc::new(AtomicU64::new(0));
-        let source = MemSource { g, data: g.materialise().map(Arc::new), calls: calls.clone(), unaligned_calls: unaligned.clone() };
+        let gate = Arc::new(Gate::new());
+        let source = MemSource { g, data: g.materialise().map(Arc::new), calls: calls.clone(), unaligned_calls: unaligned.clone(), gate: gate.clone() };
         let cache: Cache = FileContentsWrapper::new(FileContentsWithChunkedCaching::new(g.len, source));
         let parsed: Vec<(Option<u64>, Option<Op>)> = ops[1..]
             .iter()
@@ -664,6 +781,15 @@ impl Prop for C13 {
             .collect();
         let mut i = 0;
         while i < parsed.len() {
+            if ops[1 + i].trim() == "sync" {
+                let o = gate.overlapped.swap(false, Ordering::SeqCst);
+                if o {
+                    stats.bump("sections_with_overlapping_source_reads");
+                }
+                out.push(format!("sync overlap={}", o as u8));
+                i += 1;
+                continue;
+            }
             match parsed[i] {
                 (_, None) => {
                     out.push("bad-op".to_string());
@@ -707,6 +833,7 @@ impl Prop for C13 {
                     let barrier = Barrier::new(ids.len());
                     let mut results: Vec<Option<String>> = vec![None; j - i];
                     let mut panicked = false;
+                    gate.armed.store(true, Ordering::SeqCst);
                     std::thread::scope(|s| {
                         let handles: Vec<_> = ids
                             .iter()
@@ -735,6 +862,7 @@ impl Prop for C13 {
                             }
                         }
                     });
+                    gate.armed.store(false, Ordering::SeqCst);
                     stats.bump("concurrent_sections");
                     stats.add("concurrent_ops", (j - i) as u64);
                     if panicked {
